@@ -1,5 +1,5 @@
 ------------------------------ MODULE DepTrace ------------------------------
-(* resolve : {tree, got, gotNoDedup, gotRender, gotTwice}                      *)
+(* resolve : {tree, got, gotNoDedup, gotTagifiedNoDedup, gotRender, gotTwice}  *)
 (* def     : {def, raised, sameSingle}                                         *)
 EXTENDS TraceBase, DepOps
 VARIABLES tid, verdict
@@ -12,7 +12,7 @@ Clauses(e) ==
   IF e.k = "resolve" THEN
     LET all == Collect(NT(e.tree))  want == ResolveSpec(all) IN
     << <<"C10:OnePerNameHighestVersionEarliestOnTiesNamesByFirstOccurrence", Ds(e.got) = want /\ Ds(e.gotRender) = want>>,
-       <<"C10:DedupDisabledDropsAndReordersNothing", Ds(e.gotNoDedup) = all>>,
+       <<"C10:DedupDisabledDropsAndReordersNothing", Ds(e.gotNoDedup) = all /\ Ds(e.gotTagifiedNoDedup) = all>>,
        <<"C10:ResolutionIsIdempotent", Ds(e.gotTwice) = Ds(e.got)>>,
        <<"DRIFT:ResolveCodeShape", Resolve(all) = Ds(e.got)>> >>
   ELSE
